@@ -217,12 +217,12 @@ def h_validate(ctx):
         missing = ["none", "source", "sink", "sink2"][ctx.choice("missing", 4)]
         if missing == "sink2" and fan is None:
             ctx.cut("no second branch")
-        order = ctx.choice("listing", 3)  # 0: source first, 1: sinks first, 2: sink, source, sink2
+        order = ctx.choice("listing", 4)  # 0: source first, 1: sinks first, 2: sink, source, sink2; 3: sink2 first
         dangling = ctx.flag("unconnected_extra_input")
     src = {"time": TimeSrc, "pull": PullSrc, "static": StaticSrc}[src_kind]()
     sink = Sink(sink_kind, n_inputs=2 if dangling else 1)
     sink2 = Sink("pull") if fan is not None else None
-    cand = {0: [src, sink, sink2], 1: [sink, sink2, src], 2: [sink, src, sink2]}[order]
+    cand = {0: [src, sink, sink2], 1: [sink, sink2, src], 2: [sink, src, sink2], 3: [sink2, sink, src]}[order]
     drop = {"none": None, "source": src, "sink": sink, "sink2": sink2}[missing]
     comps = [c for c in cand if c is not None and c is not drop]
     composition = hlib.make_composition(comps)
